@@ -67,7 +67,7 @@ def set_spec(doc, tokens):
         while j < n and tokens[j] not in doc:
             vals.append(tokens[j])
             j += 1
-        old = doc[t]
+        old = new[t]          # a key named twice is edited twice, in order
         if isinstance(old, bool):
             if vals and vals[-1].lower() in ("true", "false"):
                 new[t] = vals[-1].lower() == "true"
